@@ -88,13 +88,20 @@ pub fn scheme_pairs(fx: &Fx) -> (u64, Vec<(String, String, serde_json::Value)>) 
     let mut n = 0;
     let mut out = vec![];
     for (first, second) in [("http", "https"), ("ws", "wss"), ("http", "wss"), ("ws", "https")] {
-        for authority in ["example.com:8443", "example.com:443", "example.com:80", "[::1]:8443"] {
+        for (authority, tls_first) in [("example.com:8443", false), ("example.com:443", false), ("example.com:80", false), ("[::1]:8443", false), ("example.com:8443", true), ("example.com:443", true)] {
             n += 1;
             let mut s = Sched::new(vec![]);
             let conns: Arc<Mutex<Vec<(String, Arc<Mutex<Vec<u8>>>)>>> = Default::default();
             let transport = ManyPlainPeers { exec: s.exec.clone(), conns: conns.clone() };
             let cfg = (*fx.client_plain).clone();
-            let built = std::panic::catch_unwind(std::panic::AssertUnwindSafe(|| hyperdriver::Client::builder().with_auto_http().with_transport(transport).with_default_pool().without_timeout().with_tls(cfg).build()));
+            // the builder's calls in both orders: the TLS configuration given before or after the transport
+            let built = std::panic::catch_unwind(std::panic::AssertUnwindSafe(|| {
+                if tls_first {
+                    hyperdriver::Client::builder().with_auto_http().with_tls(cfg).with_transport(transport).with_default_pool().without_timeout().build()
+                } else {
+                    hyperdriver::Client::builder().with_auto_http().with_transport(transport).with_default_pool().without_timeout().with_tls(cfg).build()
+                }
+            }));
             let Ok(client) = built else {
                 out.push((format!("scheme-pair panic {first}->{second}"), "building the client panicked".into(), json!({"engine":"c12-pairs"})));
                 continue;
